@@ -12,6 +12,7 @@ import (
 	"strings"
 
 	zed "github.com/brimdata/super"
+	"github.com/brimdata/super/pkg/field"
 	"github.com/brimdata/super/zson"
 )
 
@@ -79,12 +80,15 @@ type Val struct {
 	MKey  string // pool key as the implementation derives it (what the model is told)
 	Bytes []byte // zcode body
 	Ty    int    // interned type
+	KB    int    // len(key.Bytes()) of the pool key as the writer derives it (seek-index trigger)
 }
 
 type Table struct {
 	Vals   []Val
 	byText map[string]int
 }
+
+func keyPath(key string) field.Path { return field.Dotted(key) }
 
 // NewTable parses the value alphabet with the real ZSON parser (bytes and types are the real
 // ones; the key atom is the generator's).
@@ -113,7 +117,8 @@ func NewTable(cfg Cfg, texts, keys []string) (*Table, error) {
 			// sort key path ["this"] is looked up as a *field* named this: missing -> null
 			mkey = "n"
 		}
-		t.Vals = append(t.Vals, Val{Text: text, Key: keys[i], MKey: mkey, Bytes: append([]byte(nil), v.Bytes()...), Ty: ty})
+		kv := v.DerefPath(keyPath(cfg.Key)).MissingAsNull()
+		t.Vals = append(t.Vals, Val{Text: text, Key: keys[i], MKey: mkey, Bytes: append([]byte(nil), v.Bytes()...), Ty: ty, KB: len(kv.Bytes())})
 	}
 	return t, nil
 }
@@ -238,14 +243,23 @@ func MsSub(a, b []int) []int {
 
 // ---- observations -------------------------------------------------------------------
 
+// SeekObs is one entry of an object's seek index (byte offsets are not compared).
+type SeekObs struct {
+	Min string `json:"min"`
+	Max string `json:"max"`
+	Off int    `json:"off"`
+	Cnt int    `json:"cnt"`
+}
+
 type ObjObs struct {
-	ID    int    `json:"id"`
-	Min   string `json:"min"`
-	Max   string `json:"max"`
-	Count int    `json:"count"`
-	Vec   bool   `json:"vec"`
-	Toks  []int  `json:"toks"` // file content in file order; nil when the file is gone
-	Gone  bool   `json:"gone,omitempty"`
+	ID    int       `json:"id"`
+	Min   string    `json:"min"`
+	Max   string    `json:"max"`
+	Count int       `json:"count"`
+	Vec   bool      `json:"vec"`
+	Toks  []int     `json:"toks"` // file content in file order; nil when the file is gone
+	Gone  bool      `json:"gone,omitempty"`
+	Seek  []SeekObs `json:"seek,omitempty"`
 }
 
 type BranchObs struct {
